@@ -162,6 +162,9 @@ func realState(c cache.Cache) (order []int, problems []string) {
 func main() { mc.Main("C18", run) }
 
 func run(c *mc.Ctx) {
+	// one "case" here is the exploration of every schedule of a program (seconds to minutes in the thorough tier);
+	// the scheduler has its own deadlock / livelock / horizon detection, so the engine's per-case watchdog is off
+	c.CaseTimeout = 0
 	initKeys(c.Seed)
 	seqClosure(c)
 	lruInterleavings(c)
